@@ -1026,6 +1026,10 @@ def gen_UploadFacts():
     for p_ in [".upload_shard(&shard_prefix, &si.shard_hash, false, &data, &salt) .await?;", "while let Some(jh) = shard_uploads.join_next().await { jh??; }"]:
         if p_ not in up:
             raise TranslateError("upload_and_register_session_shards changed: %r" % p_)
+    # the session's shards are whatever lies in the session directory after the final flush: files flushed on the way (size
+    # target reached inside add_cas_block / add_file_reconstruction_info) and the last one alike (seed C16-r3m2)
+    if not re.match(r"self\.session_shard_manager\.flush\(\)\.await\?; let shard_list = consolidate_shards_in_directory\(self\.session_shard_manager\.shard_directory\(\), \*MDB_SHARD_MIN_TARGET_SIZE\)\?; let mut shard_uploads = JoinSet::<Result<\(\)>>::new\(\); let shard_bytes_uploaded = Arc::new\(AtomicUsize::new\(0\)\); for si in shard_list \{", up.strip()):
+        raise TranslateError("upload_and_register_session_shards: no longer flush, then scan the session directory, then upload every shard found")
     if "let dry_run = self.dry_run;" not in up or "if dry_run { return Ok(()); }" not in up or not up.index("if dry_run { return Ok(()); }") < up.index(".upload_shard("):
         raise TranslateError("upload_and_register_session_shards: a dry run no longer stops before the shard is uploaded and cached")
     # whatever the store answers to a successful upload (synced now / held already), the shard goes on to the cache
